@@ -8,6 +8,7 @@ HARNESS = 'c08'
 COQ_IMPORTS = 'From VRP Require Import Base.Tac Model.Population.'
 MODEL_TARGETS = ['theories/Model/Population.vo']
 SIZES = {'quick': 1200, 'thorough': 20000, 'search': 12000}
+SUBSTREAMS = ['c08_builder']     # the configuration side of the last clause: EvolutionConfigBuilder setter orders -> build -> EvolutionSimulator::run (Model/EvoConfig.v)
 RULE = ('cases: operation histories (3-16 ops) over add / add_all (batches of 0-5, also empty) / on_generation(speed Unknown|Moderate|'
         'Slow r/16, termination estimate t/1024 at and around the exploration-ratio boundary) / select (scripted uniform_int draws and '
         'is_hit answers), for Greedy (selection size 0-4, optional initial best), Elitism (max size 1-5, selection size 0-5, five '
@@ -360,16 +361,20 @@ def model_term(c):
         return None   # statistics (speed) depend on wall-clock time: the loop is checked by the oracle only (theorem C08_seeded_never_worse covers every statistics sequence)
     ops = lst(c['ops'], zop)
     cfg = c['cfg']
+    # (trace after every operation, panicked, the bools returned by the add / add_all operations)
     if c['kind'] == 'greedy':
-        return 'run_greedy %s %s %s' % (z(cfg['sel']), lst(cfg['best'], zi), ops)
+        a = '%s %s %s' % (z(cfg['sel']), lst(cfg['best'], zi), ops)
+        return '(run_greedy %s, rets_greedy %s)' % (a, a)
     if c['kind'] == 'elitism':
-        return 'run_elitism %s %s %s %s %s' % (z(cfg['max']), z(cfg['sel']), z(cfg['dedup']), boolean(c['two']), ops)
-    return 'run_rosomaxa %s %s %s %s %s %s' % (z(cfg['initial']), z(cfg['sel']), z(cfg['elite']), z(cfg['er']), boolean(c['two']), ops)
+        a = '%s %s %s %s %s' % (z(cfg['max']), z(cfg['sel']), z(cfg['dedup']), boolean(c['two']), ops)
+        return '(run_elitism %s, rets_elitism %s)' % (a, a)
+    a = '%s %s %s %s %s %s' % (z(cfg['initial']), z(cfg['sel']), z(cfg['elite']), z(cfg['er']), boolean(c['two']), ops)
+    return '(run_rosomaxa %s, rets_rosomaxa %s)' % (a, a)
 
 
 # ------------------------------------------------------------------ compare (model vs implementation)
 def compare(c, impl, model):
-    trace, panicked = model
+    trace, panicked, rets = model
     panicked = (panicked == 'true')
     if 'panic' in impl:
         return None if panicked else 'implementation panicked (%s), the model did not' % impl['panic'][:200]
@@ -385,6 +390,11 @@ def compare(c, impl, model):
         ids = [p[0] for p in gi['ranked']]
         if ids != mranked:
             return 'op %d (%s): ranked ids impl %s model %s' % (k, o['op'], ids, mranked)
+        if o['op'] in ('add', 'add_all'):
+            # the bool the operation returned (theorems C08_add_returns_*)
+            want = {1: True, 0: False}.get(rets[k]) if k < len(rets) else None
+            if gi.get('ret') is not want:
+                return 'op %d (%s): returned %r, model %r' % (k, o['op'], gi.get('ret'), want)
         if o['op'] == 'select':
             sids = [p[0] for p in gi['sel']]
             if c['kind'] == 'rosomaxa' and mphase == 1:
@@ -508,7 +518,7 @@ def oracle(c, impl):
     sel_cfg = c['cfg']['sel']
     slow = False
     slow_r = 16
-    prev_best = None
+    prev_best = min(offered.values()) if offered else None      # Greedy::new may be given a best_known
     lost_before = False
     size_before = False
     unsorted_before = False
@@ -578,6 +588,18 @@ def oracle(c, impl):
                             'of no-worse individuals' % (where, x, now))
             elif [y[0] for y in now] != prev_ids:
                 add('%s%s-ranked-changed-by-%s' % (kind, ph, o['op']), '%s: ranked changed from %s to %s' % (where, prev_ids, [y[0] for y in now]))
+        # the returned bool: true whenever the head got strictly better or an empty population was filled; false only when the head
+        # keeps its fitness (theorems C08_add_returns_true_on_improvement / C08_add_returns_false_keeps_best_fitness)
+        if o['op'] in ('add', 'add_all') and isinstance(g.get('ret'), bool) and all(p[0] in info for p in ranked):
+            improved = bool(keys) and (prev_best is None or keys[0] < prev_best)
+            if improved and not g['ret']:
+                add('%s%s-%s-returned-false-on-improvement' % (kind, ph, o['op']),
+                    '%s: best key went from %s to %s but the operation returned false' % (where, prev_best, keys[0]))
+            if not g['ret'] and prev_ids and ranked and prev_ids[0] in info:
+                a, b = info[prev_ids[0]], info[ranked[0][0]]
+                if a[1] != b[1] or (c['two'] and a[2] != b[2]):
+                    add('%s%s-%s-returned-false-but-best-fitness-changed' % (kind, ph, o['op']),
+                        '%s: first ranked went from %s to %s although the operation returned false' % (where, a, b))
         # selection
         if o['op'] == 'select':
             if ranked and (sel_cfg >= 1 or slow) and ranked[0] not in g['sel']:
@@ -671,17 +693,22 @@ MANIFEST_TEXT = ('Machine-checked proof (Coq, no axioms) over an executable mode
                  'arbitrary predicate / truncate, selection with index oracle and the Slow-speed size rule) and Rosomaxa (elite + '
                  'comparable-with-best filter + Initial/Exploration/Exploitation phase machine, network abstracted to a bag of offered '
                  'individuals): for every total preorder and every history of add / add_all / on_generation / select / ranked from a valid '
-                 'configuration, the first ranked individual is no worse than every offered one (all three populations; the '
-                 'Greedy::add_all short-circuit the model used to refute was repaired in 646d0ea), ranked is sorted, size <= configured bound, selections are '
-                 'offered individuals and non-empty when the population is, phases only move forward, and the evolution loop seeded through '
-                 'add never ends with a worse head (no worse than every initial solution and every offspring); further: the head is an offered minimum and '
-                 'monotone, selections contain it and have the configured size, no ranked neighbours are twins and whatever is dropped has a no-worse twin '
-                 'that stays (or the population is full of no-worse individuals). The model is tied to /repo on every run: the same histories run through the real '
-                 'populations via the public HeuristicPopulation trait (integer-keyed solution type, scripted Random) and through the model '
-                 'inside Coq (vm_compute); ranked ids, phase and selections are diffed after every operation and the property is '
-                 'evaluated directly on the implementation output.')
+                 'configuration, the first ranked individual is an offered one and no worse than every offered one, ranked is sorted, size <= '
+                 'configured bound, selections are offered individuals, contain the head and are non-empty when the population is, phases only '
+                 'move forward, the ranking depends on the offering operations only, the twin rule of dedup holds, add / add_all return true '
+                 'whenever the head improves. The configuration side of the last clause is modelled too (Model/EvoConfig.v): '
+                 'EvolutionConfigBuilder as a state machine over its setters in ANY order, build, EvolutionSimulator::new/run (seeds before '
+                 'anything else, take(max_size), operator slots, quota test, processing hooks), get_default_population, the setter sequences of '
+                 'VrpConfigBuilder::prebuild and vrp-cli: the seeds offered are those of the LAST with_init_solutions whatever is called before or '
+                 'after it, and the run returns a solution no worse than each of the first max_size seeds, every created individual and every '
+                 'offspring. Tied to /repo on every run: histories through the real populations (public trait, scripted Random) and setter sequences '
+                 'in random orders through the real EvolutionConfigBuilder + EvolutionSimulator on rosomaxa::example over a recording population '
+                 '(plus vrp-cli create_builder_from_config with a seed) are diffed with the model evaluated inside Coq (vm_compute), and the '
+                 'property is evaluated directly on the implementation output.')
 MANIFEST_NOTE = ('Trusted: Coq kernel + vm_compute; harness, generators, comparison; std semantics of sort_by (stable), dedup_by, truncate. '
                  'Only validated, not proved: what the GSOM network returns during Exploration selections (checked to be offered individuals), '
                  'f64 arithmetic of the dedup distances and ratio rules on the dyadic/integer data used, deep_copy/on_init preserving individuals. '
-                 'vrp-core Solver + pragmatic initial_reader are exercised end to end (seeded solve no worse than the given solution) but not modelled.')
+                 'vrp-core Solver + pragmatic initial_reader + vrp-cli create_builder_from_config are exercised end to end (seed offered first, seeded solve '
+                 'no worse than the given solution) but their search is not modelled; processing hooks are assumed not to worsen a solution / to keep a fresh population; '
+                 'a custom EvolutionStrategy (with_strategy) is user code: no claim.')
 MANIFEST_TECHNIQUE = 'Coq proof over executable model + vm_compute differential correspondence with the Rust implementation'
